@@ -1427,6 +1427,13 @@ pub fn run(ctx: &Ctx) -> Evidence {
     let checked = verif_root().join("harness/target/checked/vcheck");
     let mut ev = Evidence::new("every public load entry point (SNA, SZX, TAP + play + ROM LD-BYTES fast-load requests, SCR, ROM, gzip, VTX) on the complete list of structure-aware mutants of valid files, on havoc mutations and on random strings, both models, through the in-memory cursor, short-read assets and – fault enumeration – with every read/seek operation of the load (and subsequent play/fast-load) failing in turn; outcome must be Ok/Err, no panic (release and overflow-checked builds), no abort, no hang (parent watchdog over worker sub-processes), largest single allocation <= 1 MiB + 2064 x input length; then 3 frames of emulation. distinct = distinct input byte strings");
     ev.level = "fault_enumeration";
+    // a few of the actual inputs of this run, written out (format, structural trigger, head of the bytes)
+    for id in [0u64, 7, 133, 401, (ns as u64).saturating_sub(1), ns as u64 + 3, (n_cases as u64).saturating_sub(1)] {
+        if id < n_cases as u64 {
+            let c = gen_case(ctx.seed, id);
+            ev.sample(jobj! {"input_id"=>id,"format"=>c.fmt.name(),"trigger"=>c.trigger.as_str(),"length"=>c.bytes.len(),"head"=>hex(&c.bytes[..c.bytes.len().min(48)])});
+        }
+    }
     let agg = Mutex::new(Agg::default());
     // watchdog: >= 400 x the slowest valid load (+3 frames), measured here in the release build
     let mut slowest = Duration::from_millis(1);
